@@ -207,25 +207,37 @@ type Cfg struct {
 	// Alloc selects one of nbio's own allocators instead of the tracking one: AllocAligned
 	// (mempool.NewAligned(): an Append beyond the bucket capacity returns a NEW handle and frees
 	// the old one) or AllocSTD (mempool.NewSTD()). "" = the tracking allocator (Policy, Move).
-	Alloc             string `json:"alloc,omitempty"`
-	Level             int    `json:"level,omitempty"` // compression level (only with Compress)
-	F                 int    `json:"F,omitempty"`     // Engine.MaxWebsocketFramePayloadSize (0: default 32768)
-	L                 int    `json:"L,omitempty"`     // MessageLengthLimit (0: unlimited)
-	ReadLimit         int    `json:"read_limit,omitempty"`
-	Policy            int    `json:"policy,omitempty"` // track.Policy
-	NoOnMessage       bool   `json:"no_on_message,omitempty"`
-	OnDataFrame       bool   `json:"on_data_frame,omitempty"`
-	RecordCtl         bool   `json:"record_ctl,omitempty"` // recording ping/close handlers that then act like the defaults
-	ReleasePayload    bool   `json:"release_payload,omitempty"`
-	Blocking          bool   `json:"blocking,omitempty"`
-	CloseAfterHandler bool   `json:"close_after_handler,omitempty"` // CloseAndClean runs right after the handler that closed the conn (inline engine executor) instead of after Parse returns
-	Spy               bool   `json:"spy,omitempty"`
-	Observe           bool   `json:"observe,omitempty"` // call track.Use at conn.Write and in the callbacks (C11; linear in the number of freed buffers)
-	FailWriteAt       int    `json:"fail_write_at,omitempty"`
-	Move              bool   `json:"move,omitempty"`           // the allocator moves a buffer that has to grow (like mempool.NewAligned)
-	Guard             bool   `json:"guard,omitempty"`          // freed buffers become inaccessible memory instead of being poisoned (track guard mode); the caller sets debug.SetPanicOnFault on its goroutine, recovers around calls outside Parse and calls Endpoint.Release when the case is over
-	PanicAtEvent      int    `json:"panic_at_event,omitempty"` // the k-th callback (1-based) panics
-	ExecuteFalse      bool   `json:"execute_false,omitempty"`  // Conn.Execute refuses every job (closed nbio.Conn)
+	Alloc string `json:"alloc,omitempty"`
+	// Release turns payload release on the way an application does: "upgrader" =
+	// Upgrader.ReleasePayload, "engine" = Engine.ReleaseWebsocketPayload ("" = off, the default; the
+	// older ReleasePayload flag sets the connection's private field directly). With release on the
+	// payload handed to a callback is only valid until the callback returns.
+	Release string `json:"release,omitempty"`
+	// Exec is the executor behind Conn.Execute: "" = inline; "call" = jobs are queued and run, in
+	// order, after the Parse call that queued them has returned; "feed" = after the whole feed (a
+	// poller's executor runs a job some time after the reader has gone on parsing).
+	Exec string `json:"exec,omitempty"`
+	// KeepRaw: events also keep the very slice the callback was handed (Event.Raw), so that the
+	// caller can look at it again later (only meaningful while payload release is off).
+	KeepRaw           bool `json:"keep_raw,omitempty"`
+	Level             int  `json:"level,omitempty"` // compression level (only with Compress)
+	F                 int  `json:"F,omitempty"`     // Engine.MaxWebsocketFramePayloadSize (0: default 32768)
+	L                 int  `json:"L,omitempty"`     // MessageLengthLimit (0: unlimited)
+	ReadLimit         int  `json:"read_limit,omitempty"`
+	Policy            int  `json:"policy,omitempty"` // track.Policy
+	NoOnMessage       bool `json:"no_on_message,omitempty"`
+	OnDataFrame       bool `json:"on_data_frame,omitempty"`
+	RecordCtl         bool `json:"record_ctl,omitempty"` // recording ping/close handlers that then act like the defaults
+	ReleasePayload    bool `json:"release_payload,omitempty"`
+	Blocking          bool `json:"blocking,omitempty"`
+	CloseAfterHandler bool `json:"close_after_handler,omitempty"` // CloseAndClean runs right after the handler that closed the conn (inline engine executor) instead of after Parse returns
+	Spy               bool `json:"spy,omitempty"`
+	Observe           bool `json:"observe,omitempty"` // call track.Use at conn.Write and in the callbacks (C11; linear in the number of freed buffers)
+	FailWriteAt       int  `json:"fail_write_at,omitempty"`
+	Move              bool `json:"move,omitempty"`           // the allocator moves a buffer that has to grow (like mempool.NewAligned)
+	Guard             bool `json:"guard,omitempty"`          // freed buffers become inaccessible memory instead of being poisoned (track guard mode); the caller sets debug.SetPanicOnFault on its goroutine, recovers around calls outside Parse and calls Endpoint.Release when the case is over
+	PanicAtEvent      int  `json:"panic_at_event,omitempty"` // the k-th callback (1-based) panics
+	ExecuteFalse      bool `json:"execute_false,omitempty"`  // Conn.Execute refuses every job (closed nbio.Conn)
 	// Build is the construction path: "" = the Upgrader's Engine is the serving engine (limits and
 	// allocator configured there) and the Conn is built from it; "rebind" = the Upgrader is left as
 	// websocket.NewUpgrader() makes it (Engine = websocket.DefaultEngine with default limits), the
@@ -241,7 +253,56 @@ type Cfg struct {
 const (
 	AllocAligned = "aligned"
 	AllocSTD     = "std"
+	AllocLIFO    = "lifo" // Recycler: the next Malloc of a fitting size returns the buffer freed last
 )
+
+// Recycler is a mempool.Allocator that recycles immediately and deterministically: Free pushes
+// the buffer on a stack, Malloc returns the most recently freed buffer whose capacity suffices
+// (its old contents untouched beyond what the caller writes), else a fresh one. A payload that is
+// released while somebody still reads it is overwritten by the very next allocation - what a
+// sync.Pool based allocator does under load, made certain.
+type Recycler struct {
+	free           []*[]byte
+	Mallocs, Reuse int
+}
+
+func (r *Recycler) Malloc(size int) *[]byte {
+	r.Mallocs++
+	for i := len(r.free) - 1; i >= 0; i-- {
+		if h := r.free[i]; cap(*h) >= size {
+			r.free = append(r.free[:i], r.free[i+1:]...)
+			*h = (*h)[:size]
+			r.Reuse++
+			return h
+		}
+	}
+	b := make([]byte, size)
+	return &b
+}
+func (r *Recycler) Realloc(h *[]byte, size int) *[]byte {
+	if size <= cap(*h) {
+		*h = (*h)[:size]
+		return h
+	}
+	*h = append((*h)[:cap(*h)], make([]byte, size-cap(*h))...)
+	return h
+}
+func (r *Recycler) Append(h *[]byte, more ...byte) *[]byte { *h = append(*h, more...); return h }
+func (r *Recycler) AppendString(h *[]byte, more string) *[]byte {
+	*h = append(*h, more...)
+	return h
+}
+func (r *Recycler) Free(h *[]byte) {
+	if h == nil || cap(*h) == 0 {
+		return
+	}
+	for _, x := range r.free {
+		if x == h {
+			return // a double free is C11's business; keep the stack sane
+		}
+	}
+	r.free = append(r.free, h)
+}
 
 // RemoteCompress is what the handshake negotiated.
 func (c Cfg) RemoteCompress() bool {
@@ -266,6 +327,8 @@ type Endpoint struct {
 	Cleaned  bool
 	OnCloses int
 	nCb      int
+	R        *Recycler
+	pending  []func()
 	// Scribble: Feed passes every piece to Parse in a buffer of its own and overwrites that buffer
 	// with ScribbleByte afterwards, as the engine reuses its read buffer (C11).
 	Scribble bool
@@ -321,6 +384,9 @@ func NewEndpoint(cfg Cfg) *Endpoint {
 		alloc = mempool.NewAligned()
 	case AllocSTD:
 		alloc = mempool.NewSTD()
+	case AllocLIFO:
+		e.R = &Recycler{}
+		alloc = e.R
 	default:
 		panic("wsgen: unknown allocator " + cfg.Alloc)
 	}
@@ -330,6 +396,7 @@ func NewEndpoint(cfg Cfg) *Endpoint {
 	}
 	eng := engineFor(cfg.F, cfg.ReadLimit)
 	eng.BodyAllocator = alloc
+	eng.ReleaseWebsocketPayload = cfg.Release == "engine"
 	mempool.DefaultMemPool = alloc
 	use := func(b []byte, where string) {}
 	if cfg.Observe {
@@ -345,6 +412,7 @@ func NewEndpoint(cfg Cfg) *Endpoint {
 		u.Engine = eng
 	}
 	u.KeepaliveTime = 0
+	u.ReleasePayload = cfg.Release == "upgrader"
 	switch cfg.Decomp {
 	case "eofdata":
 		u.WebsocketDecompressor = func(c *websocket.Conn, r io.Reader) io.ReadCloser { return &EOFWithData{R: flate.NewReader(r)} }
@@ -367,7 +435,11 @@ func NewEndpoint(cfg Cfg) *Endpoint {
 	if !cfg.NoOnMessage {
 		u.OnMessage(func(c *websocket.Conn, mt websocket.MessageType, data []byte) {
 			use(data, "OnMessage")
-			e.Events = append(e.Events, Event{Kind: 'M', Type: byte(mt), Payload: e.readable(data)})
+			ev := Event{Kind: 'M', Type: byte(mt), Payload: e.readable(data)}
+			if cfg.KeepRaw {
+				ev.Raw = data
+			}
+			e.Events = append(e.Events, ev)
 			cb()
 		})
 	}
@@ -403,10 +475,14 @@ func NewEndpoint(cfg Cfg) *Endpoint {
 	u.OnClose(func(c *websocket.Conn, err error) { e.OnCloses++ })
 	e.U = u
 	e.C = websocket.VerifSeqConn(u, e.Fake, websocket.VerifSeqConnOpt{
-		Client: cfg.Client, RemoteCompress: cfg.RemoteCompress(), ReleasePayload: cfg.ReleasePayload, BlockingMod: cfg.Blocking, Serving: serving})
+		Client: cfg.Client, RemoteCompress: cfg.RemoteCompress(), ReleasePayload: cfg.ReleasePayload || u.ReleasePayload, BlockingMod: cfg.Blocking, Serving: serving})
 	e.C.Execute = func(f func()) bool {
 		if cfg.ExecuteFalse {
 			return false
+		}
+		if cfg.Exec != "" {
+			e.pending = append(e.pending, f)
+			return true
 		}
 		// like nbio.Conn.Execute, the executor recovers and logs a panicking job
 		func() {
@@ -425,6 +501,25 @@ func NewEndpoint(cfg Cfg) *Endpoint {
 		return true
 	}
 	return e
+}
+
+// RunPending runs the jobs a deferred executor (Cfg.Exec) has queued, in order; like
+// nbio.Conn.Execute it recovers and logs a panicking job.
+func (e *Endpoint) RunPending() {
+	for len(e.pending) > 0 {
+		f := e.pending[0]
+		e.pending = e.pending[1:]
+		func() {
+			defer func() {
+				if x := recover(); x != nil {
+					buf := make([]byte, 2048)
+					buf = buf[:runtime.Stack(buf, false)]
+					logging.Error("conn execute failed: %v\n%s", x, buf)
+				}
+			}()
+			f()
+		}()
+	}
 }
 
 // readable returns a copy of what a callback was handed - zeros of the same length in guard mode
@@ -488,6 +583,9 @@ func (e *Endpoint) Feed(wire []byte, s Seg, after func(call int, st websocket.Ve
 			piece = append([]byte(nil), piece...)
 		}
 		err := e.C.Parse(piece)
+		if e.Cfg.Exec == "call" {
+			e.RunPending()
+		}
 		if e.Scribble {
 			for i := range piece {
 				piece[i] = ScribbleByte
@@ -534,8 +632,18 @@ func (e *Endpoint) Feed(wire []byte, s Seg, after func(call int, st websocket.Ve
 		}
 		return r.AfterReport == ""
 	})
+	if len(e.pending) > 0 {
+		// Exec "feed" (or a feed that stopped early): the executor gets to the queued jobs now
+		e.RunPending()
+		if l := DrainLog(); len(l) > 0 {
+			r.Panics = append(r.Panics, l...)
+		}
+	}
 	if e.Fake.Closed && r.Err == nil {
 		r.ImplClosed = true
+		if !e.Cleaned {
+			e.Clean(nil)
+		}
 	}
 	return r
 }
